@@ -14,6 +14,19 @@ UNITS = {
                     desc="every literal constant and table entry of the u64 serial backend + constants.rs, by(compute) against definitions"),
     "CONST32": dict(engine="verus", template="contracts/const32.vx", props=["C12", "C05"], rlimit=300,
                     desc="same for the u32 serial backend (never compiled on this host)"),
+    "K-ZERO": dict(engine="kani", crate="kani/zero", props=["C14"],
+                   desc="drop glue / Zeroize of the secret-holding types of x25519-dalek and ed25519-dalek, on the real crates, complete in the secret value",
+                   trusted=["Kani/CBMC/CaDiCaL", "--cfg miri build of zeroize/cpufeatures (asm-free fallback; optimisation barrier not modelled)",
+                            "values of SharedSecret/SigningKey/Scalar materialised from symbolic bytes by transmute (their constructors are full scalar multiplications)"],
+                   harnesses={
+                       "static_secret_drop": dict(functions=["x25519-dalek/src/x25519.rs :: StaticSecret (derive ZeroizeOnDrop)"]),
+                       "reusable_secret_drop": dict(functions=["x25519-dalek/src/x25519.rs :: ReusableSecret (derive ZeroizeOnDrop), random_from_rng"]),
+                       "ephemeral_secret_drop": dict(functions=["x25519-dalek/src/x25519.rs :: EphemeralSecret (derive ZeroizeOnDrop), random_from_rng"]),
+                       "shared_secret_drop": dict(functions=["x25519-dalek/src/x25519.rs :: SharedSecret (derive ZeroizeOnDrop)"]),
+                       "static_secret_zeroize": dict(functions=["x25519-dalek/src/x25519.rs :: StaticSecret::zeroize, to_bytes"]),
+                       "expanded_secret_key_drop": dict(functions=["ed25519-dalek/src/hazmat.rs :: impl Drop for ExpandedSecretKey"]),
+                       "signing_key_drop": dict(functions=["ed25519-dalek/src/signing.rs :: impl Drop for SigningKey, as_bytes"]),
+                   }),
 }
 
 
